@@ -20,7 +20,7 @@ RULE = (
     "soup: every token sequence up to length L over a 30-token adversarial alphabet x 15 small formats x strict/lenient "
     "(exhaustive for L<=3 quick, L<=4 thorough; lengths 5-6 seeded samples in thorough); mutations: valid lines from the "
     "C01 generator with exactly one planted fault (unknown long/short option, value given to a flag, required value "
-    "stripped, last required argument dropped, surplus positional, ill-typed value). non-trivial = sequence with >=1 "
+    "stripped, last required argument dropped, surplus positional, ill-typed value). Every fifth faulty line is also parsed through Command.parse(raw, mode) of a real application's command, mode in {None, False, True} x leniency configured {nowhere, on the command, on the application, on the application but switched off on the command}: the outcome must equal the parser's in the mode that is explicit if given, else the one the command's configuration reports. non-trivial = sequence with >=1 "
     "option-like token / any mutation; distinct by (format id, token tuple) / (format shape, fault kind, spelling pattern)."
 )
 BOUND = {
@@ -69,6 +69,10 @@ FORMATS = [
 ]
 
 
+def snap(d):
+    return dict((k, list(v) if isinstance(v, list) else v) for k, v in d.items())
+
+
 def outcome(api, errs, fmt, tokens, lenient):
     try:
         r = api.DefaultArgsParser().parse(api.ArgvArgs(["prog"] + list(tokens)), fmt, lenient)
@@ -80,7 +84,8 @@ def outcome(api, errs, fmt, tokens, lenient):
         if isinstance(e, ValueError):
             return ("value", e)
         return ("other", e)
-    return ("ok", (r.arguments(False), r.options(False)))
+    # snapshot at the time of the observation: a later parse must not be able to change what this one reported
+    return ("ok", (snap(r.arguments(False)), snap(r.options(False))))
 
 
 def judge_soup(sh, api, errs, fid, fmt, tokens):
@@ -222,6 +227,77 @@ def judge_mutation(sh, api, errs, f, fmt, tokens, want, op, pattern=()):
         sh.violate("lenient-raises-parse-error" if l[0] != "other" else "containment-lenient", case, "fault %s: lenient raised %r" % (op, l[1]))
 
 
+class CommandLab(object):
+    """Commands of a real application whose leniency comes from the command's configuration, from the application's,
+    or from nowhere (strict): Command.parse(raw, mode) must use the explicit mode when one is given, the configured one
+    otherwise - and then behave exactly as the parser called directly with that mode."""
+
+    def __init__(self, api):
+        from clikit.api.config.application_config import ApplicationConfig
+        from clikit.api.config.command_config import CommandConfig
+        from clikit.console_application import ConsoleApplication
+
+        self.api, self.ApplicationConfig, self.CommandConfig, self.ConsoleApplication = api, ApplicationConfig, CommandConfig, ConsoleApplication
+        self.cache = {}
+
+    def command(self, f, where):
+        key = (repr(f), where)
+        if key not in self.cache:
+            if len(self.cache) > 200:
+                self.cache.clear()
+            api = self.api
+            app_cfg = self.ApplicationConfig("app", "1.0")
+            app_cfg.set_catch_exceptions(False)
+            app_cfg.set_terminate_after_run(False)
+            cfg = self.CommandConfig("cmd")
+            for o in f["opts"]:
+                ro = api.mkopt(o)
+                cfg.add_option(ro.long_name, ro.short_name, ro.flags, ro.description, list(o["default"]) if isinstance(o["default"], list) else o["default"])
+            for a in f["args"]:
+                ra = api.mkarg(a)
+                d = a.get("default")
+                cfg.add_argument(ra.name, ra.flags, ra.description, list(d) if isinstance(d, list) else d)
+            if where == "command":
+                cfg.enable_lenient_args_parsing()
+            elif where == "application":
+                app_cfg.enable_lenient_args_parsing()
+            elif where == "command-off":
+                app_cfg.enable_lenient_args_parsing()
+                cfg.disable_lenient_args_parsing()
+            app_cfg.add_command_config(cfg)
+            self.cache[key] = self.ConsoleApplication(app_cfg).get_command("cmd")
+        return self.cache[key]
+
+
+def judge_command_modes(sh, api, errs, lab, f, tokens):
+    if f["cmds"] or f["base"]:
+        return
+    for where in ("none", "command", "application", "command-off"):
+        cmd = lab.command(f, where)
+        # what the command's own configuration reports (a setting made on the application is not inherited by its commands)
+        configured = bool(cmd.config.is_lenient_args_parsing_enabled())
+        if where in ("none", "command") and configured != (where == "command"):
+            sh.violate("command-mode", {"kind": "command-mode", "format": f, "tokens": list(tokens), "configured": where, "explicit": None},
+                       "is_lenient_args_parsing_enabled() = %r for leniency configured at %s" % (configured, where))
+            return
+        for explicit in (None, False, True):
+            effective = configured if explicit is None else explicit
+            case = {"kind": "command-mode", "format": f, "tokens": list(tokens), "configured": where, "explicit": explicit}
+            sh.case(("command-mode", argline.format_shape(f), where, explicit), True)
+            try:
+                r = cmd.parse(api.ArgvArgs(["prog", "cmd"] + list(tokens)), explicit)
+                got = ("ok", (snap(r.arguments(False)), snap(r.options(False))))
+            except Exception as e:
+                got = ("nso" if isinstance(e, errs["nso"]) else "cpa" if isinstance(e, errs["cpa"]) else "value" if isinstance(e, ValueError) else "other", e)
+            want = outcome(api, errs, cmd.args_format, ["cmd"] + list(tokens), effective)
+            sh.count("command_mode_parses")
+            same = got[0] == want[0] and (got[0] != "ok" or (argline.same(got[1][0], want[1][0]) and argline.same(got[1][1], want[1][1])))
+            if not same:
+                sh.violate("command-mode", case, "Command.parse(raw, %r) with leniency configured at %s behaves as %s %r; the parser in %s mode gives %s %r" % (
+                    explicit, where, got[0], got[1], "lenient" if effective else "strict", want[0], want[1]))
+                return
+
+
 def errors():
     from clikit.api.args.exceptions import CannotParseArgsException, NoSuchOptionException
 
@@ -263,6 +339,7 @@ def run(sh, spec):
         sh.sample({"kind": "soup", "format": FORMATS[fid], "tokens": ["--alpha", "", "-az"][: spec["maxlen"]]})
     else:
         ch = RandomChooser(sh.rng)
+        lab = CommandLab(api)
         n = 0
         while n < spec["lines"]:
             f = argline.gen_format(ch)
@@ -277,6 +354,8 @@ def run(sh, spec):
                     sh.count("mut_not_applicable")
                     continue
                 judge_mutation(sh, api, errs, f, fmt, m[0], m[1], op, case["pattern"])
+                if n % 5 == 0:
+                    judge_command_modes(sh, api, errs, lab, f, m[0])
                 if n <= 2:
                     sh.sample({"kind": "mutation", "op": op, "tokens": m[0], "valid_line": case["tokens"], "want": m[1]})
 
@@ -284,7 +363,7 @@ def run(sh, spec):
 def finalize(tier, merged):
     c = merged["counters"]
     inc = []
-    for k in ("strict_ok", "strict_nso", "strict_cpa", "strict_value", "lenient_ok") + tuple("mut_" + o for o in OPS):
+    for k in ("strict_ok", "strict_nso", "strict_cpa", "strict_value", "lenient_ok", "command_mode_parses") + tuple("mut_" + o for o in OPS):
         if not c.get(k):
             inc.append("monitor never observed outcome %s" % k)
     return {"inconclusive": inc}
@@ -294,7 +373,9 @@ def replay(sh, case):
     repo.activate()
     api = argline.Api()
     errs = errors()
-    if case["kind"] == "soup":
+    if case["kind"] == "command-mode":
+        judge_command_modes(sh, api, errs, CommandLab(api), case["format"], case["tokens"])
+    elif case["kind"] == "soup":
         judge_soup(sh, api, errs, case["format_id"], api.build(FORMATS[case["format_id"]]), tuple(case["tokens"]))
     else:
         judge_mutation(sh, api, errs, case["format"], api.build(case["format"]), case["tokens"], case["want"], case["op"])
